@@ -9,6 +9,7 @@ invisible.  A shape outside the interpreted subset is an ANALYSIS-ERROR, never a
 from __future__ import annotations
 
 import ast
+import builtins
 
 from ..dataflow import RD
 from ..exprmodel import IMPLEMENT_NEW, expression_classes, handwritten_expr_classes
@@ -665,6 +666,7 @@ def run(ctx: Check, tree: Tree) -> None:
     ctx.section(check_handwritten_newargs, ctx, tree)
     ctx.section(check_deprecated_getnewargs, ctx, tree)
     ctx.section(check_model_pickle_hooks, ctx, tree)
+    ctx.section(check_model_field_equality, ctx, tree)
     ctx.section(check_converters_idempotent, ctx, tree)
 
 
@@ -725,6 +727,69 @@ def check_model_pickle_hooks(ctx: Check, tree: Tree) -> None:
             ctx.ok("R-MODEL-PICKLE", tree.loc(cls.node), f"{cls.name} defines no custom pickle hooks (default attrs/pickle state transfer of all fields)")
     if undecided:
         raise AnalysisError("; ".join(undecided))
+
+
+def check_model_field_equality(ctx: Check, tree: Tree) -> None:
+    """R-FIELDEQ: `loads(dumps(model)) == model` goes through the attrs-generated ``__eq__`` of HelicityModel, which compares
+    EVERY field (unless declared ``eq=False``).  A field whose annotated type is a class of the package with identity
+    equality (a plain class without ``__eq__``, also when only some subclasses are plain) comes back from pickle as a
+    different, unequal object - the round trip is then not the identity although every expression is.  Types from outside
+    the package (SymPy, qrules, builtins, collections) are trusted to compare by value (assumption of the evidence)."""
+    n = 0
+    undecided = []
+    for q in ("ampform.helicity::HelicityModel",):
+        cls = tree.cls(q)
+        for st in cls.node.body:
+            if not (isinstance(st, ast.AnnAssign) and isinstance(st.target, ast.Name)):
+                continue
+            if "ClassVar" in unparse(st.annotation):
+                continue
+            name = st.target.id
+            if isinstance(st.value, ast.Call) and any(k.arg in {"eq", "cmp"} and isinstance(k.value, ast.Constant) and k.value.value is False for k in st.value.keywords):
+                ctx.ok("R-FIELDEQ", tree.loc(st), f"{cls.name}.{name}: declared eq=False (does not take part in model equality)")
+                continue
+            n += 1
+            # every class of the package that the annotation names (also inside Optional[...] / unions / containers)
+            named = []
+            unresolved: list[str] = []
+            for node in ast.walk(st.annotation if not isinstance(st.annotation, ast.Constant) else ast.parse(str(st.annotation.value), mode="eval").body):
+                if isinstance(node, (ast.Name, ast.Attribute)):
+                    if isinstance(getattr(node, "_parent", None), ast.Attribute):
+                        continue  # the inner part of a dotted name
+                    target = tree.resolve(cls.module, node, None)
+                    if target in tree.classes:
+                        named.append(tree.classes[target])
+                    elif target is None and not (isinstance(node, ast.Name) and hasattr(builtins, node.id)):
+                        unresolved.append(unparse(node))
+            bad, unknown = [], []
+            if unresolved:
+                undecided.append(f"{cls.name}.{name}: the type `{unresolved[0]}` of the annotation cannot be resolved")
+                continue
+            for c in named:
+                for k in [c, *tree.subclasses(c)]:
+                    if k.node.body and any(unparse(b).split(".")[-1] in {"ABC", "Protocol"} for b in k.node.bases) and tree.subclasses(k):
+                        continue  # an abstract base: its concrete subclasses are judged
+                    ident = _instance_identity(tree, k)
+                    ext = [b.split("[")[0] for b in tree.external_bases(k)]
+                    if ident == "unknown" and tree.lookup_method(k, "__eq__") is None and ext and all(
+                            b.startswith("sympy.") or b in {"collections.abc.Mapping", "collections.abc.Sequence", "collections.abc.Set", "collections.abc.MutableMapping", "collections.OrderedDict", "dict", "list"} for b in ext):
+                        ident = "value"  # SymPy's structural equality / the mixin __eq__ of the collection ABCs
+                    if ident == "identity":
+                        bad.append(k)
+                    elif ident == "unknown":
+                        unknown.append(k)
+            key = f"{q}::field {name}::equality"
+            if bad:
+                ctx.violation("R-FIELDEQ", key, tree.loc(st), f"{cls.name}.{name}: `{unparse(st.annotation)[:40]}` admits instances of {bad[0].qual}, a plain class without __eq__ (identity equality)",
+                              "pickle creates a new instance, the attrs-generated HelicityModel.__eq__ compares this field, so loads(dumps(model)) != model; give the class value equality or declare the field eq=False")
+            elif unknown:
+                undecided.append(f"{cls.name}.{name}: how instances of {unknown[0].qual} compare cannot be read")
+            else:
+                ctx.ok("R-FIELDEQ", tree.loc(st), f"{cls.name}.{name}: `{unparse(st.annotation)[:40]}` " + ("names no class of the package" if not named else f"- {', '.join(sorted({k.name for k in named}))} compare by value"))
+    if undecided:
+        raise AnalysisError("; ".join(undecided[:3]))
+    if n < 5:
+        raise AnalysisError(f"HelicityModel: only {n} fields that take part in equality found (6 confirmed)")
 
 
 _MAPPING_WORDS = ("Mapping", "dict", "Dict", "OrderedDict")
